@@ -8,7 +8,7 @@ from ..interp import cval, has_const
 from ..source import norm_text
 from .common import def_map, expand, parent_map, stmt_of, walk_no_nested
 from .formula import check_degree
-from .geo import pbc_distance_obligations, uniq_events
+from .geo import kind_errors, pbc_distance_obligations, uniq_events
 
 COMP = 'gemdat.collective.Collective._compute'
 JC = 'gemdat.jumps.Jumps.collective'
@@ -176,6 +176,7 @@ def check(ctx):
                'inner scan starts at the row after the outer one' if ok else
                'the inner scan includes the outer row itself / earlier rows: pairs are reported twice or a jump is paired with itself')
     # ---- R4
+    kind_errors(ctx, 'R4', it, lambda f: f.qualname == COMP, strict=True)
     ev = [e for e in it.events[start:] if e['tag'] == 'pbc_distance' and e['where'] is not None and e['where'].qualname == COMP]
     seen = set()
     for e in ev:
